@@ -40,13 +40,13 @@ func Ops(u []hs.Blob) []string {
 
 // Sys is one fresh server plus the reference map (implements opseq.Sys).
 type Sys struct {
-	S    *Server
-	Ref  *hs.RefMap
-	U    []hs.Blob
-	ops  []string
-	res  *vk.Result
-	sc   *vk.Scenario
-	hist []string
+	S     *Server
+	Ref   *hs.RefMap
+	U     []hs.Blob
+	ops   []string
+	res   *vk.Result
+	sc    *vk.Scenario
+	hist  []string
 	space string
 	// outcome classes of the operations applied (new / dup / rejected ...)
 	classes []string
@@ -54,7 +54,7 @@ type Sys struct {
 }
 
 func NewSys(c Conf, u []hs.Blob, scenario string, res *vk.Result) (*Sys, error) {
-	s, err := NewServer(c)
+	s, err := NewServer(c, true)
 	if err != nil {
 		return nil, err
 	}
@@ -268,7 +268,7 @@ func (y *Sys) Check() (m *hs.Mismatch) {
 		confirmed[sd.Sig]++
 		for i := 0; i < 5 && confirmed[sd.Sig] <= 3; i++ {
 			p2 := &prober{s: y.S, ref: y.Ref, u: y.U, root: "/bs"}
-			if m := p2.checkEnum(); m != nil {
+			if m := p2.run(); m != nil {
 				return m
 			}
 			found := false
